@@ -2,7 +2,7 @@
 import json, os
 from .context import Ctx
 from .report import Report
-from . import rules_effects, rules_own, rules_wipe, rules_tables, rules_bits, rules_api, rules_char, rules_cmp, rules_birthday
+from . import rules_effects, rules_own, rules_wipe, rules_tables, rules_bits, rules_api, rules_char, rules_cmp, rules_birthday, rules_bounds
 
 TB_COMMON = ['clang-14 parsing and -O0 lowering of C11 (+ opt-14 mem2reg)', 'LLVM x86-64 data layout',
              'tools/irfacts.cc (IR -> JSON, no analysis)', 'psa/ir.py CFG, dominators, inclusion-based points-to']
@@ -175,6 +175,7 @@ def c07(ctx, rep):
 def c17(ctx, rep):
     rules_tables.phrase_size(ctx, rep)
     rules_api.encode_api(ctx, rep)
+    rules_bounds.normaliser_buffers(ctx, rep)
     return ('per-position maxima of word lengths (NFKD and NFC) over all 2048 admissible indices, summed over 16 positions + 15 '
             'separators, compared with the compiled sizeof(polyseed_str); exit summary of encode ties the sum to the 16+15 writer calls')
 
@@ -205,6 +206,34 @@ def c11(ctx, rep):
             'packing, storage and crypt (bit identities)')
 
 
+def c14(ctx, rep):
+    # harness runs first: their concrete, bounds-checked accesses feed the inventory rule IDX-2
+    rules_bits.mul2_and_horner(ctx, rep)
+    rules_bits.packing(ctx, rep, want=('layout', 'inverse'))
+    rules_bits.storage(ctx, rep)
+    rules_api.keygen(ctx, rep)
+    rules_api.crypt(ctx, rep)
+    rules_api.create(ctx, rep)
+    rules_api.decoders(ctx, rep)
+    rules_api.load_api(ctx, rep)
+    rules_api.encode_api(ctx, rep)
+    rules_api.detection(ctx, rep)
+    rules_api.features(ctx, rep)
+    rules_bounds.counters(ctx, rep)
+    rules_bounds.normaliser_buffers(ctx, rep)
+    rules_cmp.cursor_safety(ctx, rep)
+    rules_bounds.input_immutability(ctx, rep)
+    rules_bounds.no_abort(ctx, rep)
+    rules_own.ownership(ctx, rep)
+    rules_tables.phrase_size(ctx, rep)
+    rep.assumptions += ['input strings are NUL-terminated (caller contract); injected functions respect their documented buffer sizes',
+                        'NOT decided: termination and absence of every undefined-behaviour class as such; only bounds of indexed and cursor accesses, '
+                        'input immutability, documented status sets, ownership and no-abort are decided']
+    return ('bounds of every indexed access (concrete in bitflow harnesses, monotone-counter rule elsewhere, inventory of all variable-index sites), '
+            'NUL-cursor discipline (must-dataflow), input immutability (points-to effect rule over const parameters), whole-buffer rule for '
+            'normaliser outputs, documented status sets from exit summaries, ownership typestate, no noreturn call in release builds')
+
+
 def c19(ctx, rep):
     rules_char.char_sites(ctx, rep)
     rules_char.byte_order_tables(ctx, rep)
@@ -220,6 +249,7 @@ REGISTRY = {
     'C11': dict(fn=c11, level='proof', tb=TB_COMMON + ['psa/interval.py interval transfer functions', 'published constants EPOCH / TIME_STEP in psa/rules_birthday.py', 'psa/bitflow.py']),
     'C12': dict(fn=c12, level='proof', tb=TB_COMMON + ['psa/bitflow.py', 'summaries of injected functions in psa/harness.py']),
     'C13': dict(fn=c13, level='other', tb=TB_COMMON + ['psa/bitflow.py']),
+    'C14': dict(fn=c14, level='other', tb=TB_COMMON + ['psa/bitflow.py', 'psa/rules_bounds.py must-dataflow and counter invariants']),
     'C15': dict(fn=c15, level='proof', tb=TB_COMMON + ['psa/paths.py path walker (phi resolution, constant folding)']),
     'C16': dict(fn=c16, level='proof', tb=TB_COMMON + ['psa/taint.py propagation summaries for injected functions']),
     'C01': dict(fn=c01, level='other', tb=TB_COMMON + ['psa/bitflow.py transfer functions', 'Python unicodedata']),
